@@ -21,6 +21,7 @@ fn main() {
     "optable" => kernels::optable(),
     "typecheck" => dump::typecheck_cmd(&args[2..]),
     "exprloc" => dump::exprloc_cmd(&args[2..]),
+    "survive" => dump::survive_cmd(&args[2..]),
     _ => {
       eprintln!("unknown subcommand");
       std::process::exit(64);
